@@ -33,7 +33,7 @@ ASSUMPTIONS = [
 SETTINGS = [
     dict(new_featuretype=None, merge_attributes=True, numeric_sort=False, update_attributes=None),
     dict(new_featuretype="intron", merge_attributes=True, numeric_sort=True, update_attributes=None),
-    dict(new_featuretype="gap", merge_attributes=False, numeric_sort=False, update_attributes=None),
+    dict(new_featuretype="gap", merge_attributes=False, numeric_sort=False, update_attributes={"Name": ["only"]}),     # nothing merged, yet updated
     dict(new_featuretype="gap", merge_attributes=True, numeric_sort=False, update_attributes={"Name": ["u"], "ID": ["forced"]}),
 ]
 
@@ -267,6 +267,10 @@ def _introns_checks(ctx, db, exp, strand, lines, sig):
         ctx.check(not bad, "intron-columns-wrong", dict(sig, selection=sel), file=lines, bad=[str(b) for b in bad][:3])
         sites = [(f.featuretype, G.as_plain(f.attributes)["Parent"][0], f.start, f.end, f.strand, G.as_plain(f.attributes)["ID"][0])
                  for f in db.create_splice_sites(**kw)]
+        for f in db.create_splice_sites(numeric_sort=True, **kw):          # the option reaches the sites as it reaches the introns
+            a = G.as_plain(f.attributes)
+            ctx.check(a.get("lvl") == ["2", "10"], "splice-site-attributes-not-numerically-sorted", dict(sig, selection=sel), file=lines,
+                      got={k: list(v) for k, v in a.items()})
         exp_sites = []
         for t, s, e in exp:
             exp_sites.append((LABEL[("left", strand)], t, s, s + 1, strand))
